@@ -209,8 +209,16 @@ def build_nasty_dlis(rng):
             eflrs.append(GLg.simple_eflr(b'PARAMETER', [(b'LONG-NAME', 20, None, None), (b'VALUES', 20, None, None)],
                                          [((1, 0, nm), [[ln], [val]]) for nm, val, ln in params]))
             kinds.append(5)
+        if rng.random() < 0.4:
+            # a further ORIGIN-type table (RP66V1 asks for at least one ORIGIN): a table like any other
+            eflrs.append(rng.choice([GLg.origin_full(well=rng.choice(NASTY_ASCII), company=company, field=b'second origin'),
+                                     GLg.simple_eflr(b'WELL-REFERENCE', [(b'PERMANENT-DATUM', 20, None, None)], [((1, 0, b'WR'), [[b'ground level']])])]))
+            kinds.append(1)
         eflrs += [GLg.channel_eflr(chans_all), GLg.frame_eflr([dict(name=ty['name'], channels=ty['channels'], description=ty['description']) for ty in types])]
         kinds += [3, 4]
+        if rng.random() < 0.3:
+            eflrs.append(GLg.simple_eflr(b'TOOL', [(b'DESCRIPTION', 20, None, None)], [((1, 0, b'T1'), [[rng.choice(NASTY_ASCII)]])]))
+            kinds.append(5)
         for k, pl in zip(kinds, eflrs):
             recs.append(dict(kind='E', type=k, enc=False))
             payloads.append(pl)
